@@ -230,7 +230,10 @@ func genC17Walk(r *Rand) *ProgCase {
 		// a label branch is often the FIRST statement after the switch (its ocode is rewritten in pass 2)
 		jumped := false
 		l := fmt.Sprintf("M%d", i)
-		if r.Chance(2, 3) {
+		if r.Chance(1, 5) {
+			// or a far jump (sized by its own rule: 8 bytes in 16-bit code, 7 in 32-bit code)
+			p.Stmts = append(p.Stmts, PStmt{K: "farjmp", N: int64(Pick(r, []int{8, 16, 0x28})), Off: int64(Pick(r, []int{0x1b, 0x7c00, 0x280000}))})
+		} else if r.Chance(2, 3) {
 			p.Stmts = append(p.Stmts, PStmt{K: "jmp", Mn: Pick(r, []string{"JMP", "JE", "JNZ", "CALL", "JC", "JAE"}), Label: l})
 			jumped = true
 		}
